@@ -27,6 +27,13 @@ TEXT["C17"] = {
     "design_ref": "DESIGN.md section 3, C17",
 }
 
+TEXT["C18"] = {
+    "technique": "property-based testing (rapid) + exhaustive integer-argument windows; differential against independent reference functions and shape predicates",
+    "text": "34 data filters and the widthratio tag are run (ApplyFilter and template syntax, which must agree) on generated strings, sequences of every sliceable kind (incl. by-value and pointer arrays), numbers and times, and on exhaustive windows (slice bounds -8..8 squared plus blanks over lengths 0..6 and 7 sequence kinds; widths/lengths -3..20 over strings of 0..12 runes; word counts; digit positions; divisors). Results are compared with small independent reference functions (Python slicing, rune-based sequence operations, decimal rounding on the decimal string, ...) or with the shape predicate the property states. Exploration-level assurance.",
+    "note": "Trusted: the reference functions in harness/props/c18_test.go. Fixture-pinned deviations from Django are accepted (listed in the evidence assumptions). Not covered: phone2numeric, title, urlize*, linebreaks, random, truncate*_html (not named by the property).",
+    "design_ref": "DESIGN.md section 3, C18",
+}
+
 PENDING_REASON = "check not built yet in this build phase (DESIGN.md section 3 describes the planned PBT check); will be claimed once its quick tier is silent on the unchanged tree and kills its mutants"
 
 
